@@ -29,6 +29,7 @@ import (
 	"github.com/palomachain/paloma/v2/tests/integration/helper"
 	utilkeeper "github.com/palomachain/paloma/v2/util/keeper"
 	consensusmodule "github.com/palomachain/paloma/v2/x/consensus"
+	consensusqueue "github.com/palomachain/paloma/v2/x/consensus/keeper/consensus"
 	"github.com/palomachain/paloma/v2/verifharness/emit"
 	consensustypes "github.com/palomachain/paloma/v2/x/consensus/types"
 	evmkeeper "github.com/palomachain/paloma/v2/x/evm/keeper"
@@ -131,9 +132,16 @@ func attestedCase(t *testing.T, run *emit.Run, r *rand.Rand) {
 	equal := r.Intn(2) == 0
 	// pattern 2 / 3: skewed shares; the 2/3-by-shares set is a minority by head count ("heavy agree"), or a
 	// head-count majority of small validators stays below 2/3 of the shares ("light agree")
-	pattern := r.Intn(4)
+	// pattern 4: equal shares, the agreeing validators stay just below two thirds; then silent validators are
+	// jailed one by one and the valset module builds new snapshots: the quorum is reached by the SNAPSHOT change
+	pattern := r.Intn(5)
+	if pattern == 4 {
+		nv = 4 + r.Intn(3)
+		vals = make([]stakingtypes.Validator, nv)
+		equal = true
+	}
 	var skew []int64
-	if pattern >= 2 {
+	if pattern == 2 || pattern == 3 {
 		switch r.Intn(3) {
 		case 0: // e.g. 50/20/10/10/10
 			nv = 5 + r.Intn(3)
@@ -214,30 +222,51 @@ func attestedCase(t *testing.T, run *emit.Run, r *rand.Rand) {
 	outsider := sdk.ValAddress([]byte("outsider------------"))
 	const outsiderID = 99
 
-	isRef := r.Intn(2) == 0
+	kind := r.Intn(3)
+	isRef, isTx := kind == 0, kind == 2
 	sub := evmkeeper.ConsensusGetValidatorBalances
 	if isRef {
 		sub = evmkeeper.ConsensusGetReferenceBlock
 	}
+	if isTx {
+		sub = evmtypes.ConsensusTurnstoneMessage
+	}
 	queue := consensustypes.Queue(sub, consensustypes.ChainTypeEVM, attChain)
-	msgs, err := f.ConsensusKeeper.GetMessagesFromQueue(ctx, queue, 0)
-	must(err)
-	for _, m := range msgs {
-		must(f.ConsensusKeeper.DeleteJob(ctx, queue, m.GetId()))
-	}
-	if isRef {
-		must(f.EvmKeeper.ScheduleReferenceBlockForChain(ctx, attChain))
+	var msgID uint64
+	var msgs []consensustypes.QueuedSignedMessageI
+	if isTx {
+		// a turnstone message (SubmitLogicCall, no fees set: no transaction can match it) with a compass contract on record
+		sc, err := f.EvmKeeper.SaveNewSmartContract(ctx, "[]", []byte{1, 2, 3})
+		must(err)
+		_ = f.EvmKeeper.SetAsCompassContract(ctx, sc) // records it as the last compass; deploying it to the chains is not our subject
+		msgID, err = f.ConsensusKeeper.PutMessageInQueue(ctx, queue, &evmtypes.Message{
+			TurnstoneID: "abc", ChainReferenceID: attChain, Assignee: addrs[0].String(), AssigneeRemoteAddress: "0x00000000000000000000000000000000000000a1",
+			Action: &evmtypes.Message_SubmitLogicCall{SubmitLogicCall: &evmtypes.SubmitLogicCall{
+				HexContractAddress: "0x00000000000000000000000000000000000000c1", Abi: []byte("[]"), Payload: []byte{1}, Deadline: 1 << 40,
+				SenderAddress: make([]byte, 20),
+			}},
+		}, &consensusqueue.PutOptions{RequireSignatures: true, PublicAccessData: []byte{1}})
+		must(err)
 	} else {
-		must(f.EvmKeeper.CheckExternalBalancesForChain(ctx, attChain))
+		msgs, err = f.ConsensusKeeper.GetMessagesFromQueue(ctx, queue, 0)
+		must(err)
+		for _, m := range msgs {
+			must(f.ConsensusKeeper.DeleteJob(ctx, queue, m.GetId()))
+		}
+		if isRef {
+			must(f.EvmKeeper.ScheduleReferenceBlockForChain(ctx, attChain))
+		} else {
+			must(f.EvmKeeper.CheckExternalBalancesForChain(ctx, attChain))
+		}
+		msgs, err = f.ConsensusKeeper.GetMessagesFromQueue(ctx, queue, 0)
+		must(err)
+		if len(msgs) != 1 {
+			t.Fatalf("request not queued (%d)", len(msgs))
+		}
+		msgID = msgs[0].GetId()
 	}
-	msgs, err = f.ConsensusKeeper.GetMessagesFromQueue(ctx, queue, 0)
-	must(err)
-	if len(msgs) != 1 {
-		t.Fatalf("request not queued (%d)", len(msgs))
-	}
-	msgID := msgs[0].GetId()
 	var reqVals []sdk.ValAddress
-	if !isRef {
+	if !isRef && !isTx {
 		cm, err := msgs[0].ConsensusMsg(f.Codec)
 		must(err)
 		for _, a := range cm.(*evmtypes.ValidatorBalancesAttestation).ValAddresses {
@@ -249,7 +278,9 @@ func attestedCase(t *testing.T, run *emit.Run, r *rand.Rand) {
 	}
 
 	var fam []evmtypes.Hashable
-	if isRef {
+	if isTx {
+		fam = attTxFamily(r)
+	} else if isRef {
 		fam = attRefFamily(r)
 	} else {
 		fam = attBalFamily(r, nv)
@@ -287,6 +318,7 @@ func attestedCase(t *testing.T, run *emit.Run, r *rand.Rand) {
 		pdesc = append(pdesc, describe(p))
 	}
 
+	jailed := map[string]bool{}
 	latest := map[int]int{} // validator id -> proof index of its latest accepted submission
 	var opItems []string
 	var trace []string
@@ -346,7 +378,7 @@ func attestedCase(t *testing.T, run *emit.Run, r *rand.Rand) {
 	// (height = 0 mod 50) when the request is older than 300 blocks
 	const added = 5
 	height := int64(6)
-	late := r.Intn(3) == 0
+	late := r.Intn(3) == 0 && !isTx && pattern != 4 // a turnstone message has no effect to tell "declared" from "pruned"
 	pruneBlock := int64(50 * (7 + r.Intn(4)))
 	if late {
 		height = pruneBlock - 1
@@ -358,10 +390,17 @@ func attestedCase(t *testing.T, run *emit.Run, r *rand.Rand) {
 		must(module.EndBlock(hctx()))
 		ms, err := f.ConsensusKeeper.GetMessagesFromQueue(ctx, queue, 0)
 		must(err)
-		removed = len(ms) == 0
+		removed = true
+		for _, m := range ms {
+			if m.GetId() == msgID {
+				removed = false
+			}
+		}
 		p, _ := agreed()
 		declared := false
-		if isRef {
+		if isTx {
+			declared = removed
+		} else if isRef {
 			h, s := refNow()
 			declared = h != 123 || s != "0x1234"
 		} else {
@@ -413,7 +452,9 @@ func attestedCase(t *testing.T, run *emit.Run, r *rand.Rand) {
 			violate("C04:two-thirds-agree-but-message-stays", "2/3 of the snapshot shares submitted the same answer but the "+sub+" request stays queued")
 		}
 		// effect
-		if isRef {
+		if isTx {
+			// declared delivered / failed / not verified: the message leaves the queue (checked above)
+		} else if isRef {
 			h, s := refNow()
 			if !removed && (h != 123 || s != "0x1234") {
 				violate("C04:effect-applied-without-removal", fmt.Sprintf("reference block changed to %d/%q while the request is still queued", h, s))
@@ -432,7 +473,7 @@ func attestedCase(t *testing.T, run *emit.Run, r *rand.Rand) {
 				}
 				if removed && p != nil {
 					want, ok := new(big.Int).SetString(p.(*evmtypes.ValidatorBalancesAttestationRes).Balances[i], 10)
-					if ok && want.String() != b {
+					if ok && want.String() != b && !jailed[string(reqVals[i])] { // valset refuses to record anything for a jailed validator
 						violate("C04:applied-effect-is-not-the-agreed-answer", fmt.Sprintf("balance %d recorded as %q, the agreed answer says %s", i, b, want))
 					}
 				}
@@ -446,7 +487,17 @@ func attestedCase(t *testing.T, run *emit.Run, r *rand.Rand) {
 	// all on the base answer; pattern 3 stops before the agreeing shares reach two thirds
 	type planned struct{ id, w int }
 	var plan []planned
-	if pattern >= 2 {
+	if pattern == 4 {
+		k := 0
+		for 3*(k+1) < 2*nv {
+			k++
+		}
+		for id := 0; id < k; id++ {
+			plan = append(plan, planned{id, 0})
+		}
+		nops = len(plan)
+		run.Count("attested-pattern", "snapshot-change")
+	} else if pattern >= 2 {
 		order := make([]int, nv)
 		for k := range order {
 			order[k] = k
@@ -544,6 +595,40 @@ func attestedCase(t *testing.T, run *emit.Run, r *rand.Rand) {
 			process()
 		}
 	}
+	if pattern == 4 && !removed {
+		// the silent validators are jailed one by one; after each the valset module builds a new snapshot
+		for id := len(plan); id < nv && !removed; id++ {
+			height++
+			var v stakingtypes.Validator
+			for _, x := range vals {
+				op, err := utilkeeper.ValAddressFromBech32(f.EvmKeeper.AddressCodec, x.GetOperator())
+				must(err)
+				if string(op) == string(addrs[id]) {
+					v = x
+				}
+			}
+			v.Jailed = true
+			jailed[string(addrs[id])] = true
+			must(f.StakingKeeper.SetValidator(ctx, v))
+			if _, err := f.ValsetKeeper.TriggerSnapshotBuild(hctx()); err != nil {
+				t.Fatalf("snapshot build: %v", err)
+			}
+			cur, err := f.ValsetKeeper.GetCurrentSnapshot(ctx)
+			must(err)
+			shares = map[int]sdkmath.Int{}
+			var items []string
+			for _, sv := range cur.Validators {
+				i := ops[string(sv.Address)]
+				shares[i] = sv.ShareCount
+				items = append(items, emit.Pair(emit.ZI(int64(i)), emit.Z(sv.ShareCount.BigInt())))
+			}
+			total = cur.TotalShares
+			trace = append(trace, fmt.Sprintf("validator %d is jailed; new snapshot of %d validators, total %s", id, len(cur.Validators), total))
+			opItems = append(opItems, fmt.Sprintf("C04.ASnap %s %s", emit.List(items), emit.Z(total.BigInt())))
+			run.Count("attested-snapshot-change", fmt.Sprintf("%d validators left", len(cur.Validators)))
+			process()
+		}
+	}
 	if !removed {
 		process()
 	}
@@ -551,4 +636,27 @@ func attestedCase(t *testing.T, run *emit.Run, r *rand.Rand) {
 	run.Count("attested-request", sub)
 	run.Count("attested-timing", map[bool]string{true: "around a pruning block, older than 300", false: "young"}[late])
 	run.Case(fmt.Sprintf("C04.CAttest %s %d %s %s", coqSn, added, emit.List(pitems), emit.List(opItems)), true, replay())
+}
+
+// attTxFamily: answers to a turnstone message: transaction proofs (all with a receipt) that differ in one field, and error proofs.
+func attTxFamily(r *rand.Rand) []evmtypes.Hashable {
+	k := uint64(r.Intn(200))
+	d := byte(r.Intn(256))
+	mk := func(tx, rc []byte) evmtypes.Hashable { return &evmtypes.TxExecutedProof{SerializedTX: tx, SerializedReceipt: rc} }
+	base := legacyTx(k, d)
+	if r.Intn(2) == 0 {
+		base = typedTx(k, d, r.Intn(2) == 0)
+	}
+	ok, failed := receiptOf(1, 100+k, 0), receiptOf(0, 100+k, 0)
+	out := []evmtypes.Hashable{mk(base, ok), mk(base, failed)}
+	if r.Intn(2) == 0 { // the agreed answer is a failed transaction
+		out[0], out[1] = out[1], out[0]
+	}
+	m := fmt.Sprintf("execution reverted: %d", r.Intn(100))
+	out = append(out, mk(legacyTx(k+1, d), ok), mk(base, receiptOf(1, 101+k, 0)), mk(legacyTx(k, d+1), failed),
+		&evmtypes.SmartContractExecutionErrorProof{ErrorMessage: m}, &evmtypes.SmartContractExecutionErrorProof{ErrorMessage: m + " "})
+	if r.Intn(4) == 0 { // the agreed answer is an execution error
+		out[0], out[5] = out[5], out[0]
+	}
+	return out
 }
